@@ -77,11 +77,13 @@ class MPUFileSink:
         with open(dst, "ab") as f:
             for part in rest:
                 src_path = Path(part["Path"])
-                with src_path.open("rb") as src:
-                    with mmap.mmap(
-                        src.fileno(), 0, access=mmap.ACCESS_READ
-                    ) as src_bytes:
-                        f.write(src_bytes)
+                # mmap refuses zero-length files, nothing to append for an empty part
+                if src_path.stat().st_size > 0:
+                    with src_path.open("rb") as src:
+                        with mmap.mmap(
+                            src.fileno(), 0, access=mmap.ACCESS_READ
+                        ) as src_bytes:
+                            f.write(src_bytes)
 
                 if not keep_parts:
                     src_path.unlink()
